@@ -294,3 +294,23 @@ def permutation_gather(ctx, rule="RG"):
         if found is not None:
             ctx.add(rule, qn + "|results-restored-with-the-inverse-permutation", "VIOLATED",
                     "a sequence computed in the order of a sort permutation is gathered with the permutation itself instead of its inverse: %s" % found[0], fn=qn, line=found[1])
+
+
+def shared_contracts(ctx, rule="RO"):
+    """Every property whose anchored functions flatten points through n_1d_arrays / index them through utils.kdtree relies on the
+    callee-side ordering contract; it is re-checked here under the generic rule id RO unless the property's own rules already did."""
+    if any(o.construct == "verde.base.utils.n_1d_arrays|C-order" for o in ctx.obs.values()):
+        return
+    if "verde.base.utils.n_1d_arrays" not in ctx.pkg.functions or "verde.utils.kdtree" not in ctx.pkg.functions:
+        return
+    uses = False
+    for qn in sorted(q for q in ctx.consulted if q in ctx.pkg.functions):
+        fa = ctx.an.fa(qn)
+        if not fa.ok:
+            continue
+        for fx in [fa] + list(fa.nested.values()):
+            for p in fx.paths:
+                if any(e.kind == "call" and callee(e.data[0]) in ("verde.base.utils.n_1d_arrays", "verde.utils.kdtree") for e in p.events):
+                    uses = True
+    if uses:
+        point_order_contract(ctx, rule)
